@@ -54,10 +54,12 @@ ValueOK(ev, syn) ==
                       /\ ev.val.v = val.v
 
 \* the tree the code's parser built (kept by the hook, reduced to its shape) is the tree of the parser definition; nothing the
-\* grammar rejects gets a tree, everything it accepts does
+\* grammar rejects gets a tree; what it accepts and the evaluator answered with Ok has one (drivers that record on another
+\* thread than the calling one carry no tree: field "noast")
 AstOK(ev, syn) ==
   /\ syn.v = "reject" => "ast" \notin DOMAIN ev
-  /\ syn.v = "accept" => ("ast" \in DOMAIN ev /\ ev.ast = Flat(Shape(syn.tree, syn.toks)))
+  /\ (syn.v = "accept" /\ "ast" \in DOMAIN ev) => ev.ast = Flat(Shape(syn.tree, syn.toks))
+  /\ (syn.v = "accept" /\ ev.st = "ok" /\ "noast" \notin DOMAIN ev) => "ast" \in DOMAIN ev
 
 PureOK(ev) == ("kid" \in DOMAIN ev /\ ev.kid \in DOMAIN seen) =>
                  /\ seen[ev.kid].canon = ev.canon
